@@ -225,4 +225,276 @@ theorem insert_wf (e : Engine) (hw : WfEngine e) (r : CompiledRule) (hf : Fresh 
       subst hie
       simp [List.lookup_cons]
 
+
+/-! ### every engine built from a compiler is well-formed -/
+structure GoodList (cs : List CompiledRule) : Prop where
+  nodup : (cs.map (·.name)).Nodup
+  deps : ∀ (k : Nat) (r : CompiledRule), cs[k]? = some r → ∀ d ∈ r.depends,
+    ∃ j, j < k ∧ ∃ q, cs[j]? = some q ∧ q.name = d
+  cover : ∀ r ∈ cs, ∀ n ∈ refs r.ops, n ∈ r.depends
+  sev : ∀ r ∈ cs, r.severity ≤ Gen.maxSeverity
+
+theorem empty_wf : WfEngine {} := by
+  refine { toWfCore := ⟨?_, ?_⟩, deps_cover := ?_, deps_cache := ?_, cache_ok := ?_, sev_ok := ?_ }
+  · intro name i; simp
+  · intro i r h; simp at h
+  · intro i r h; simp at h
+  · intro i r h; simp at h
+  · intro k l h; cases h
+  · intro r h; cases h
+
+theorem nodup_name_inj {cs : List CompiledRule} (h : (cs.map (·.name)).Nodup) {i j : Nat} {a b : CompiledRule}
+    (hi : cs[i]? = some a) (hj : cs[j]? = some b) (hn : a.name = b.name) : i = j := by
+  have hi' := List.getElem?_eq_some_iff.mp hi
+  have hj' := List.getElem?_eq_some_iff.mp hj
+  obtain ⟨hil, hie⟩ := hi'
+  obtain ⟨hjl, hje⟩ := hj'
+  have h1 : (cs.map (·.name))[i]? = some a.name := by simp [hi]
+  have h2 : (cs.map (·.name))[j]? = some a.name := by simp [hj, hn]
+  exact (List.getElem?_inj (by simpa using hil) h).mp (h1.trans h2.symm)
+
+theorem fold_wf : ∀ (rest : List CompiledRule) (e : Engine) (pre : List CompiledRule), WfEngine e → e.rules = pre →
+    GoodList (pre ++ rest) →
+    ∃ e', rest.foldl (fun e? r => e?.bind (fun e => Engine.insertCompiled e r)) (some e) = some e' ∧
+      WfEngine e' ∧ e'.rules = pre ++ rest := by
+  intro rest
+  induction rest with
+  | nil => intro e pre hw hr _; exact ⟨e, rfl, hw, by simp [hr]⟩
+  | cons r rest ih =>
+    intro e pre hw hr hg
+    have hk : (pre ++ r :: rest)[pre.length]? = some r := by simp
+    have hf : Fresh e r := by
+      refine ⟨?_, ?_, hg.cover r (by simp), hg.sev r (by simp)⟩
+      · cases hl : e.names.lookup r.name with
+        | none => rfl
+        | some i =>
+          exfalso
+          obtain ⟨q, hq, hqn⟩ := (hw.names_ok r.name i).mp hl
+          rw [hr] at hq
+          have hi : i < pre.length := (List.getElem?_eq_some_iff.mp hq).1
+          have hq' : (pre ++ r :: rest)[i]? = some q := by rw [List.getElem?_append_left hi]; exact hq
+          have := nodup_name_inj hg.nodup hq' hk hqn
+          omega
+      · intro d hd
+        obtain ⟨j, hj, q, hq, hqn⟩ := hg.deps pre.length r hk d hd
+        have hq' : e.rules[j]? = some q := by
+          rw [hr]; rw [List.getElem?_append_left hj] at hq; exact hq
+        exact ⟨j, by rw [hr]; exact hj, (hw.names_ok d j).mpr ⟨q, hq', hqn⟩⟩
+    obtain ⟨e1, h1, hw1, hr1, _⟩ := insert_wf e hw r hf
+    simp only [List.foldl_cons, Option.bind_some, h1]
+    have := ih e1 (pre ++ [r]) hw1 (by rw [hr1, hr]) (by simpa using hg)
+    simpa using this
+
+theorem btInsert_mem (k : Str) (m : Match) (ops : List (Str × Match)) (p : Str × Match)
+    (h : p ∈ btInsert k m ops) : p = (k, m) ∨ p ∈ ops := by
+  induction ops with
+  | nil => simp [btInsert] at h; exact Or.inl h
+  | cons q ops ih =>
+    obtain ⟨k', m'⟩ := q
+    simp only [btInsert] at h
+    split at h
+    · simp only [List.mem_cons] at h
+      rcases h with h | h
+      · exact Or.inl h
+      · exact Or.inr (List.mem_cons_of_mem _ h)
+    · split at h
+      · simp only [List.mem_cons] at h
+        rcases h with h | h | h
+        · exact Or.inl h
+        · exact Or.inr (by simp [h])
+        · exact Or.inr (List.mem_cons_of_mem _ h)
+      · simp only [List.mem_cons] at h
+        rcases h with h | h
+        · exact Or.inr (by simp [h])
+        · rcases ih h with h' | h'
+          · exact Or.inl h'
+          · exact Or.inr (List.mem_cons_of_mem _ h')
+
+theorem mem_refs_iff (ops : List (Str × Match)) (n : Str) : n ∈ refs ops ↔ ∃ k, (k, Match.rule n) ∈ ops := by
+  simp only [refs, List.mem_filterMap]
+  constructor
+  · rintro ⟨⟨k, m⟩, hm, h⟩
+    cases m with
+    | rule n' => simp only [Option.some.injEq] at h; subst h; exact ⟨k, hm⟩
+    | direct _ _ _ => cases h
+    | indirect _ _ => cases h
+  · rintro ⟨k, hk⟩; exact ⟨(k, .rule n), hk, rfl⟩
+
+theorem compileOps_cover (x : Ext) : ∀ (l : List (Str × Str)) (deps : List Str) (ops : List (Str × Match))
+    (deps' : List Str) (ops' : List (Str × Match)), compileOps x l deps ops = .ok deps' ops' →
+    (∀ n ∈ refs ops, n ∈ deps) → ∀ n ∈ refs ops', n ∈ deps' := by
+  intro l
+  induction l with
+  | nil =>
+    intro deps ops deps' ops' h hc
+    simp only [compileOps, OpsOut.ok.injEq] at h
+    obtain ⟨rfl, rfl⟩ := h; exact hc
+  | cons p l ih =>
+    intro deps ops deps' ops' h hc
+    obtain ⟨operand, s⟩ := p
+    unfold compileOps at h
+    split at h
+    · cases h
+    · cases hm : parseMatch x s with
+      | panic => rw [hm] at h; cases h
+      | err => rw [hm] at h; cases h
+      | ok m =>
+        rw [hm] at h
+        simp only at h
+        apply ih _ _ _ _ h
+        intro n hn
+        obtain ⟨k, hk⟩ := (mem_refs_iff _ n).mp hn
+        rcases btInsert_mem _ _ _ _ hk with heq | hold
+        · simp only [Prod.mk.injEq] at heq
+          obtain ⟨_, rfl⟩ := heq
+          show n ∈ (if deps.contains n then deps else deps ++ [n])
+          split
+          · rename_i hc'; simpa using hc'
+          · simp
+        · have := hc n ((mem_refs_iff _ n).mpr ⟨k, hold⟩)
+          cases m with
+          | rule n' =>
+            simp only
+            split
+            · exact this
+            · exact List.mem_append_left _ this
+          | direct _ _ _ => exact this
+          | indirect _ _ => exact this
+
+theorem compileInto_cover (x : Ext) (r : Rule) (cr : CompiledRule) (h : compileInto x r = .ok cr) :
+    (∀ n ∈ refs cr.ops, n ∈ cr.depends) ∧ cr.severity ≤ Gen.maxSeverity := by
+  unfold compileInto at h
+  simp only at h
+  split at h
+  · cases h
+  · cases h
+  · split at h
+    · cases h
+    · split at h
+      · cases h
+      · cases h
+      · rename_i deps ops hops
+        simp only [CompileOut.ok.injEq] at h
+        rw [← h]
+        refine ⟨compileOps_cover x _ [] [] deps ops hops (by intro n hn; simp [refs] at hn), ?_⟩
+        simp only [boundSeverity]; exact Nat.min_le_right _ _
+
+theorem goodFrom_deps : ∀ (l pre : List Comp.Rule), Comp.GoodFrom pre l →
+    ∀ (k : Nat) (r : Comp.Rule), l[k]? = some r → ∀ d ∈ r.deps, d ∈ Comp.names (pre ++ l.take k) := by
+  intro l
+  induction l with
+  | nil => intro pre _ k r h; simp at h
+  | cons a l ih =>
+    intro pre hg k r hk d hd
+    obtain ⟨h1, h2⟩ := hg
+    cases k with
+    | zero =>
+      simp only [List.getElem?_cons_zero, Option.some.injEq] at hk
+      subst hk
+      simp only [Comp.goodAt, Bool.and_eq_true, List.all_eq_true, decide_eq_true_eq] at h1
+      simpa using h1.2 d hd
+    | succ k =>
+      simp only [List.getElem?_cons_succ] at hk
+      have := ih (pre ++ [a]) h2 k r hk d hd
+      simpa [List.append_assoc] using this
+
+/-- **C06 / C14.** The engine obtained from any reachable compiler state is well-formed: names are unique,
+    every `rule(x)` names a rule loaded *before* its dependant (no unknown name, self-reference or cycle), and
+    the dependency cache is the DFS of each rule. -/
+theorem ofCompiler_wf (x : Ext) (c : Compiler) (hi : C14.RInv x c) (e : Engine) (h : Engine.ofCompiler x c = .ok e) :
+    WfEngine e ∧ e.rules = (Compiler.compile x c).1.compiled := by
+  have hok := (C14.C14_engine x c e h).1
+  obtain ⟨hcomp, hnames⟩ := (C14.C14_compile x c hi).2 hok
+  obtain ⟨hi', hrules, _, _, _⟩ := C14.compile_refines x c hi
+  generalize hcs : (Compiler.compile x c).1.compiled = cs at hcomp hnames
+  -- each compiled rule is the compilation of the rule at the same position
+  have hat : ∀ (k : Nat) (cr : CompiledRule), cs[k]? = some cr →
+      ∃ r, c.rules[k]? = some r ∧ C14.okOf x r = some cr := by
+    intro k cr hk
+    have h1 : (cs.map some)[k]? = some (some cr) := by simp [hk]
+    rw [hcomp] at h1
+    simp only [List.getElem?_map, Option.map_eq_some_iff] at h1
+    obtain ⟨r, hr, hro⟩ := h1
+    exact ⟨r, hr, hro⟩
+  have hg : GoodList cs := by
+    refine ⟨?_, ?_, ?_, ?_⟩
+    · rw [hnames]
+      have := hi.abs.nodup
+      simpa [C14.absSt, C14.absNames] using this
+    · intro k cr hk d hd
+      obtain ⟨r, hr, hro⟩ := hat k cr hk
+      -- the abstract compiled list is all the rules, all good
+      have hgood := hi'.abs.good
+      have hfull : (C14.absSt x (Compiler.compile x c).1).compiled = c.rules.map (C14.absRule x) := by
+        have hall := (Comp.ok_iff_all_good (C14.absSt x c) hi.abs).mp
+          ((C14.compile_refines x c hi).2.2.2.2.mp hok)
+        have := (C14.compile_refines x c hi).2.2.2.1
+        rw [this, hall]; rfl
+      rw [hfull] at hgood
+      have hk' : (c.rules.map (C14.absRule x))[k]? = some (C14.absRule x r) := by simp [hr]
+      have hd' : d ∈ (C14.absRule x r).deps := by simp [C14.absRule, hro, hd]
+      have := goodFrom_deps _ [] hgood k _ hk' d hd'
+      simp only [List.nil_append, ← List.map_take, C14.absNames] at this
+      obtain ⟨q, hq, hqn⟩ := List.mem_map.mp this
+      obtain ⟨j, hjl, hje⟩ := List.getElem_of_mem hq
+      simp only [List.length_take] at hjl
+      have hjr : c.rules[j]? = some q := by
+        rw [List.getElem_take] at hje
+        simp [← hje]
+      -- the compiled rule at position j carries that name
+      have hlen : cs.length = c.rules.length := by
+        have := congrArg List.length hcomp; simpa using this
+      have hjc : j < cs.length := by omega
+      refine ⟨j, by omega, cs[j], by simp [hjc], ?_⟩
+      have : (cs.map (·.name))[j]? = (c.rules.map (·.name))[j]? := by rw [hnames]
+      simp only [List.getElem?_map, hjr, Option.map_some] at this
+      have hcj : cs[j]? = some cs[j] := by simp [hjc]
+      rw [hcj] at this
+      simp only [Option.map_some, Option.some.injEq] at this
+      rw [this, hqn]
+    · intro cr hcr n hn
+      obtain ⟨k, hkl, hke⟩ := List.getElem_of_mem hcr
+      obtain ⟨r, _, hro⟩ := hat k cr (by simp [hkl, hke])
+      have hci : compileInto x r = .ok cr := by
+        unfold C14.okOf at hro
+        split at hro
+        · rename_i cr' hc'; simp only [Option.some.injEq] at hro; subst hro; exact hc'
+        · cases hro
+      exact (compileInto_cover x r cr hci).1 n hn
+    · intro cr hcr
+      obtain ⟨k, hkl, hke⟩ := List.getElem_of_mem hcr
+      obtain ⟨r, _, hro⟩ := hat k cr (by simp [hkl, hke])
+      have hci : compileInto x r = .ok cr := by
+        unfold C14.okOf at hro
+        split at hro
+        · rename_i cr' hc'; simp only [Option.some.injEq] at hro; subst hro; exact hc'
+        · cases hro
+      exact (compileInto_cover x r cr hci).2
+  -- the fold of `insert_compiled`
+  unfold Engine.ofCompiler at h
+  split at h
+  · cases h
+  · rename_i c' hc
+    have hc'cs : c'.compiled = cs := by
+      have : (Compiler.compile x c).1 = c' := by rw [hc]
+      rw [← this]; exact hcs
+    split at h
+    · rename_i e1 hf
+      simp only [Except.ok.injEq] at h; subst h
+      rw [hc'cs] at hf
+      obtain ⟨e', hfold, hw', hr'⟩ := fold_wf cs {} [] empty_wf rfl (by simpa using hg)
+      rw [hfold] at hf
+      simp only [Option.some.injEq] at hf
+      subst hf
+      exact ⟨hw', by simpa using hr'⟩
+    · cases h
+
+/-- **C06.** A rule of type dependency is never a candidate, hence never contributes to a scan result -/
+theorem C06_dependency_never_reported (e : Engine) (hw : WfEngine e) (src : Str) (id : Int) (i : Nat)
+    (r : CompiledRule) (hr : e.rules[i]? = some r) (hd : r.rtype = .dependency) : i ∉ candidates e src id := by
+  intro h
+  obtain ⟨q, hq, hty, _⟩ := (C01.mem_candidates e hw src id i).mp h
+  rw [hr] at hq; cases hq
+  simp [CompiledRule.isFilter, CompiledRule.isDetection, hd] at hty
+
 end Gene.Props.C06
